@@ -314,31 +314,54 @@ func checkBookkeeping(c *Ctx) {
 				pi++
 			}
 		}
-		apps := 0
+		// unconditional appends to the definitions field: top-level statements of the function, or of a helper of the same
+		// package that a top-level statement calls (the definition literal may then be the helper's argument)
+		apps, condApps := 0, 0
 		var lit *ast.CompositeLit
-		for _, st := range fd.Body.List {
-			as, ok := st.(*ast.AssignStmt)
-			if !ok || len(as.Rhs) != 1 {
-				continue
-			}
-			call, ok := ast.Unparen(as.Rhs[0]).(*ast.CallExpr)
-			if !ok {
-				continue
-			}
-			if id, ok := call.Fun.(*ast.Ident); ok && id.Name == "append" && len(call.Args) == 2 {
-				if sel, ok := ast.Unparen(as.Lhs[0]).(*ast.SelectorExpr); ok && sel.Sel.Name == defsField {
-					apps++
-					x := ast.Unparen(call.Args[1])
-					if u, ok := x.(*ast.UnaryExpr); ok {
-						x = u.X
+		var count func(fd *ast.FuncDecl, arg ast.Expr, depth int)
+		count = func(fd *ast.FuncDecl, arg ast.Expr, depth int) {
+			for _, st := range fd.Body.List {
+				switch x := st.(type) {
+				case *ast.AssignStmt:
+					if len(x.Rhs) != 1 {
+						continue
 					}
-					lit, _ = x.(*ast.CompositeLit)
+					call, ok := ast.Unparen(x.Rhs[0]).(*ast.CallExpr)
+					if !ok {
+						continue
+					}
+					if id, ok := call.Fun.(*ast.Ident); ok && id.Name == "append" && len(call.Args) == 2 {
+						if sel, ok := ast.Unparen(x.Lhs[0]).(*ast.SelectorExpr); ok && sel.Sel.Name == defsField {
+							apps++
+							v := ast.Unparen(call.Args[1])
+							if _, isIdent := v.(*ast.Ident); isIdent && arg != nil {
+								v = ast.Unparen(arg)
+							}
+							if u, ok := v.(*ast.UnaryExpr); ok {
+								v = u.X
+							}
+							if cl, ok := v.(*ast.CompositeLit); ok {
+								lit = cl
+							}
+						}
+					}
+				case *ast.ExprStmt:
+					if call, ok := x.X.(*ast.CallExpr); ok && depth < 2 {
+						if fo, ok := objOf(info, call.Fun).(*types.Func); ok && fo.Pkg() == sp.Types {
+							if hd := declOfFunc(sp, fo); hd != nil && hd.Body != nil {
+								var a0 ast.Expr
+								if len(call.Args) == 1 {
+									a0 = call.Args[0]
+								}
+								count(hd, a0, depth+1)
+							}
+						}
+					}
 				}
 			}
 		}
-		// conditional appends anywhere else
-		condApps := 0
-		ast.Inspect(fd.Body, func(n ast.Node) bool {
+		count(fd, nil, 0)
+		deepInspect(sp, fd, 2, func(n ast.Node) bool {
 			if as, ok := n.(*ast.AssignStmt); ok && len(as.Lhs) == 1 {
 				if sel, ok := ast.Unparen(as.Lhs[0]).(*ast.SelectorExpr); ok && sel.Sel.Name == defsField {
 					condApps++
@@ -427,9 +450,9 @@ func checkBookkeeping(c *Ctx) {
 	}
 	// the single-definition helper reports both count == 0 and count > 1: the parameterless error-returning method of the
 	// symbol table that compares the number of definitions with constants
-	var single *ast.FuncDecl
+	var singles []*ast.FuncDecl
 	AllFuncDecls(sp, func(fd *ast.FuncDecl) {
-		if fd.Recv == nil || fd.Body == nil || recvName(fd.Recv.List[0].Type) != "SymbolTable" || single != nil {
+		if fd.Recv == nil || fd.Body == nil || recvName(fd.Recv.List[0].Type) != "SymbolTable" {
 			return
 		}
 		fo := info.Defs[fd.Name].(*types.Func)
@@ -437,63 +460,90 @@ func checkBookkeeping(c *Ctx) {
 		if sig.Params().Len() != 0 || sig.Results().Len() != 1 || !isErr(sig.Results().At(0).Type()) {
 			return
 		}
+		mentions := false
 		ast.Inspect(fd.Body, func(n ast.Node) bool {
-			if b, ok := n.(*ast.BinaryExpr); ok {
-				if call, ok := ast.Unparen(b.X).(*ast.CallExpr); ok && len(call.Args) == 1 {
-					if id, ok := call.Fun.(*ast.Ident); ok && id.Name == "len" {
-						if sel, ok := ast.Unparen(call.Args[0]).(*ast.SelectorExpr); ok && sel.Sel.Name == defsField {
-							single = fd
-						}
-					}
-				}
-				// n := len(e.definitions); n == 0
-			}
-			if as, ok := n.(*ast.AssignStmt); ok && len(as.Rhs) == 1 {
-				if call, ok := ast.Unparen(as.Rhs[0]).(*ast.CallExpr); ok && len(call.Args) == 1 {
-					if id, ok := call.Fun.(*ast.Ident); ok && id.Name == "len" {
-						if sel, ok := ast.Unparen(call.Args[0]).(*ast.SelectorExpr); ok && sel.Sel.Name == defsField {
-							single = fd
-						}
+			if call, ok := n.(*ast.CallExpr); ok && len(call.Args) == 1 {
+				if id, ok := call.Fun.(*ast.Ident); ok && id.Name == "len" {
+					if sel, ok := ast.Unparen(call.Args[0]).(*ast.SelectorExpr); ok && sel.Sel.Name == defsField {
+						mentions = true
 					}
 				}
 			}
 			return true
 		})
+		if mentions {
+			singles = append(singles, fd)
+		}
 	})
+	reportsErr := func(st ast.Stmt) string {
+		label := ""
+		ast.Inspect(st, func(m ast.Node) bool {
+			if call, ok := m.(*ast.CallExpr); ok {
+				if fo, ok := objOf(info, call.Fun).(*types.Func); ok && (fo.Name() == "Append" || fo.Name() == "Join") && fo.Pkg() != nil && strings.HasSuffix(fo.Pkg().Path(), "errors") {
+					label = "report"
+				}
+			}
+			return true
+		})
+		return label
+	}
+	// the loop of a helper whose body tests a length
+	lenLoop := func(fd *ast.FuncDecl, which int) *ast.RangeStmt {
+		var loops []*ast.RangeStmt
+		ast.Inspect(fd.Body, func(n ast.Node) bool {
+			if rs, ok := n.(*ast.RangeStmt); ok {
+				has := false
+				ast.Inspect(rs.Body, func(m ast.Node) bool {
+					if call, ok := m.(*ast.CallExpr); ok {
+						if id, ok := call.Fun.(*ast.Ident); ok && id.Name == "len" {
+							has = true
+						}
+					}
+					return true
+				})
+				if has {
+					loops = append(loops, rs)
+				}
+			}
+			return true
+		})
+		if which < 0 {
+			which = len(loops) + which
+		}
+		if which < 0 || which >= len(loops) {
+			return nil
+		}
+		return loops[which]
+	}
+	// among the helpers that test the number of definitions, the single-definition helper is the one that reports a count of 0
+	var single *ast.FuncDecl
+	for _, cand := range singles {
+		if rs := lenLoop(cand, 0); rs != nil {
+			if r0, d0 := lenCase(info, rs.Body.List, 0, reportsErr); d0 && r0["report"] {
+				single = cand
+			}
+		}
+	}
+	if single == nil && len(singles) > 0 {
+		single = singles[0]
+	}
 	if fd := single; fd != nil {
 		c.Analysed(funcKey(sp, fd))
-		zero, many := false, false
-		ast.Inspect(fd.Body, func(n ast.Node) bool {
-			ifs, ok := n.(*ast.IfStmt)
-			if !ok {
-				return true
+		if rs := lenLoop(fd, 0); rs != nil {
+			r0, d0 := lenCase(info, rs.Body.List, 0, reportsErr)
+			r1, d1 := lenCase(info, rs.Body.List, 1, reportsErr)
+			r2, d2 := lenCase(info, rs.Body.List, 2, reportsErr)
+			r3, d3 := lenCase(info, rs.Body.List, 3, reportsErr)
+			if d0 && d1 && d2 && d3 {
+				c.Check("R7.3", "a terminal without a definition is reported", fd.Pos(), r0["report"], "no error is recorded when a terminal has no definition", "start = A;")
+				c.Check("R7.3", "a terminal with several definitions is reported", fd.Pos(), r2["report"] && r3["report"], "no error is recorded when a terminal has two or more definitions", "A = \"x\"  A = \"y\"")
+				c.Check("R7.3", "a terminal with exactly one definition is not reported", fd.Pos(), !r1["report"], "an error is recorded for a terminal with exactly one definition")
+			} else {
+				c.Undecided("R7.3", "a terminal without a definition / with several definitions is reported", fd.Pos(), "the conditions of the single-definition helper are not all comparisons of a length with constants")
 			}
-			b, ok := ast.Unparen(ifs.Cond).(*ast.BinaryExpr)
-			if !ok {
-				return true
-			}
-			v, okc := constInt(info, b.Y)
-			appends := false
-			ast.Inspect(ifs.Body, func(m ast.Node) bool {
-				if call, ok := m.(*ast.CallExpr); ok {
-					if fo, ok := objOf(info, call.Fun).(*types.Func); ok && fo.Name() == "Append" {
-						appends = true
-					}
-				}
-				return true
-			})
-			if okc && appends {
-				if b.Op == token.EQL && v == 0 {
-					zero = true
-				}
-				if (b.Op == token.GTR && v == 1) || (b.Op == token.GEQ && v == 2) {
-					many = true
-				}
-			}
-			return true
-		})
-		c.Check("R7.3", "a terminal without a definition is reported", fd.Pos(), zero, "no error for len(definitions) == 0", "start = A;")
-		c.Check("R7.3", "a terminal with several definitions is reported", fd.Pos(), many, "no error for len(definitions) > 1", "A = \"x\"  A = \"y\"")
+		} else {
+			c.Undecided("R7.3", "a terminal without a definition / with several definitions is reported", fd.Pos(), "no loop that tests a length in the single-definition helper")
+		}
 	} else {
 		c.Lost("R7.3", "the single-definition helper")
 	}
@@ -556,28 +606,19 @@ func checkBookkeeping(c *Ctx) {
 		})
 		c.Check("R7.3", "every singly-defined terminal takes part in the same-value check", distinct.Pos(), found && groupedUncond,
 			"definitions are grouped by value only under the extra condition `"+extra+"`: some terminals (e.g. string literals used in rules) escape the 'two terminals with the same value' check", "start = \"if\" KW;  KW = /if/")
-		reports := false
-		ast.Inspect(distinct.Body, func(n ast.Node) bool {
-			ifs, ok := n.(*ast.IfStmt)
-			if !ok {
-				return true
-			}
-			if b, ok := ast.Unparen(ifs.Cond).(*ast.BinaryExpr); ok && ((b.Op == token.GTR) || (b.Op == token.GEQ)) {
-				v, okc := constInt(info, b.Y)
-				if okc && ((b.Op == token.GTR && v == 1) || (b.Op == token.GEQ && v == 2)) {
-					ast.Inspect(ifs.Body, func(m ast.Node) bool {
-						if call, ok := m.(*ast.CallExpr); ok {
-							if fo, ok := objOf(info, call.Fun).(*types.Func); ok && fo.Name() == "Append" {
-								reports = true
-							}
-						}
-						return true
-					})
-				}
-			}
-			return true
-		})
-		c.Check("R7.3", "two terminals with the same value are reported", distinct.Pos(), reports, "no error is recorded for a value shared by two or more definitions")
+		reports, reportsDecided := false, false
+		if rs := lenLoop(distinct, -1); rs != nil {
+			g1, d1 := lenCase(info, rs.Body.List, 1, reportsErr)
+			g2, d2 := lenCase(info, rs.Body.List, 2, reportsErr)
+			g3, d3 := lenCase(info, rs.Body.List, 3, reportsErr)
+			reportsDecided = d1 && d2 && d3
+			reports = !g1["report"] && g2["report"] && g3["report"]
+		}
+		if !reportsDecided {
+			c.Undecided("R7.3", "two terminals with the same value are reported", distinct.Pos(), "the loop over the groups of equal values was not understood")
+		} else {
+			c.Check("R7.3", "two terminals with the same value are reported", distinct.Pos(), reports, "no error is recorded for a value shared by two or more definitions (or one is recorded for a value that is not shared)")
+		}
 	} else {
 		c.Lost("R7.3", "the distinct-values helper")
 	}
@@ -638,39 +679,71 @@ func checkPatternErrors(c *Ctx) {
 	}
 	fn := c.SSAFunc(sp, fd)
 	c.Analysed(funcKey(sp, fd))
-	var patCalls []*ssa.Call
+	type patSite struct {
+		call *ssa.Call
+		in   *ssa.Function
+		via  *ssa.Call // the call in Spec.DFA of the helper that contains the site (nil if the site is in Spec.DFA itself)
+	}
+	var sites []patSite
 	var combine *ssa.Call
+	isPatCompiler := func(callee *ssa.Function) bool {
+		if callee == nil || callee.Pkg != fn.Pkg {
+			return false
+		}
+		sig := callee.Signature
+		return sig.Params().Len() == 1 && isString(sig.Params().At(0).Type()) && sig.Results().Len() == 2 && isErr(sig.Results().At(1).Type())
+	}
 	allCalls(fn, func(call ssa.CallInstruction) {
 		cv, ok := call.(*ssa.Call)
 		if !ok {
 			return
 		}
-		if callee := cv.Call.StaticCallee(); callee != nil && callee.Pkg == fn.Pkg {
-			sig := callee.Signature
-			if sig.Params().Len() == 1 && isString(sig.Params().At(0).Type()) && sig.Results().Len() == 2 && isErr(sig.Results().At(1).Type()) {
-				patCalls = append(patCalls, cv)
-			}
+		callee := cv.Call.StaticCallee()
+		if isPatCompiler(callee) {
+			sites = append(sites, patSite{cv, fn, nil})
+		} else if callee != nil && callee.Pkg == fn.Pkg && callee != fn {
+			// a helper of Spec.DFA that compiles the patterns
+			allCalls(callee, func(inner ssa.CallInstruction) {
+				if iv, ok := inner.(*ssa.Call); ok && isPatCompiler(iv.Call.StaticCallee()) {
+					sites = append(sites, patSite{iv, callee, cv})
+				}
+			})
 		}
 		if staticCalleeName(cv) == depPath+"/automata.CombineDFA" {
 			combine = cv
 		}
 	})
-	if !c.Check("R7.4", "patterns are compiled and the automata combined in Spec.DFA", fd.Pos(), len(patCalls) >= 1 && combine != nil, "anchors not found") {
+	if len(sites) == 0 || combine == nil {
+		c.Undecided("R7.4", "patterns are compiled and the automata combined in Spec.DFA", fd.Pos(), "the calls that compile the patterns and combine the automata were not found in Spec.DFA or its direct helpers")
 		return
 	}
-	for _, pc := range patCalls {
-		var ev ssa.Value
-		for _, r := range *pc.Referrers() {
-			if ex, ok := r.(*ssa.Extract); ok && ex.Index == 1 {
-				ev = ex
+	c.Pass("R7.4", "patterns are compiled and the automata combined in Spec.DFA", fd.Pos(), "")
+	errOf := func(call *ssa.Call) ssa.Value {
+		for _, r := range *call.Referrers() {
+			if ex, ok := r.(*ssa.Extract); ok && isErr(ex.Type()) {
+				return ex
 			}
 		}
-		c.Check("R7.4", "the pattern compiler's error is used", pc.Pos(), ev != nil, "the error result is discarded")
-		if ev != nil {
-			c.Check("R7.4", "an invalid pattern's error reaches the result of Spec.DFA", pc.Pos(), errReachesReturn(fn, ev), "the pattern error is dropped: an invalid pattern yields a nil automaton that is then combined", "T = /a{3,1}/")
-		}
+		return nil
 	}
-	// CombineDFA is reached only when the aggregate is nil
+	var helperErrs []ssa.Value
+	for _, st := range sites {
+		ev := errOf(st.call)
+		c.Check("R7.4", "the pattern compiler's error is used", st.call.Pos(), ev != nil, "the error result is discarded")
+		if ev == nil {
+			continue
+		}
+		reaches := errReachesReturn(st.in, ev)
+		if reaches && st.via != nil {
+			hv := errOf(st.via)
+			reaches = hv != nil && errReachesReturn(fn, hv)
+			if hv != nil {
+				helperErrs = append(helperErrs, hv)
+			}
+		}
+		c.Check("R7.4", "an invalid pattern's error reaches the result of Spec.DFA", st.call.Pos(), reaches, "the pattern error is dropped: an invalid pattern yields a nil automaton that is then combined", "T = /a{3,1}/")
+	}
+	// CombineDFA is reached only when no pattern failed
 	guard := false
 	for _, cd := range controlConds(combine.Block()) {
 		if bo, ok := cd.v.(*ssa.BinOp); ok && !cd.pol && bo.Op == token.NEQ {
@@ -679,5 +752,202 @@ func checkPatternErrors(c *Ctx) {
 			}
 		}
 	}
+	for _, hv := range helperErrs {
+		if controlledNil(combine.Block(), hv, false) {
+			guard = true
+		}
+	}
 	c.Check("R7.4", "automata are combined only if every pattern compiled", combine.Pos(), guard, "CombineDFA is not guarded by the nil test of the collected pattern errors")
+}
+
+// lenCase interprets a statement list for one concrete value k of "the length being tested": every comparison of a len(...)
+// call with a constant is evaluated with len = k, &&, || and ! are followed, if / switch (tagged by a len call, or tagless) pick
+// their branch, continue / break / return end the walk. It returns the labels that classify(stmt) gives to the simple
+// statements that are executed, and whether every condition on the way could be evaluated. The shape of the code (if chain,
+// switch, early continue) does not matter, only which statements run for which length.
+func lenCase(info *types.Info, stmts []ast.Stmt, k int64, classify func(ast.Stmt) string) (map[string]bool, bool) {
+	out := map[string]bool{}
+	decided := true
+	lenVars := map[types.Object]bool{}
+	isLenCall := func(e ast.Expr) bool {
+		call, ok := ast.Unparen(e).(*ast.CallExpr)
+		if !ok || len(call.Args) != 1 {
+			return false
+		}
+		id, ok := call.Fun.(*ast.Ident)
+		return ok && id.Name == "len"
+	}
+	// variables bound to a length: n := len(x), also in the init clause of an if or switch
+	for _, root := range stmts {
+		ast.Inspect(root, func(n ast.Node) bool {
+			if as, ok := n.(*ast.AssignStmt); ok && len(as.Lhs) == 1 && len(as.Rhs) == 1 && isLenCall(as.Rhs[0]) {
+				if id, ok := as.Lhs[0].(*ast.Ident); ok {
+					if o := info.Defs[id]; o != nil {
+						lenVars[o] = true
+					}
+				}
+			}
+			return true
+		})
+	}
+	isLen := func(e ast.Expr) bool {
+		if isLenCall(e) {
+			return true
+		}
+		if id, ok := ast.Unparen(e).(*ast.Ident); ok && lenVars[info.Uses[id]] {
+			return true
+		}
+		return false
+	}
+	var eval func(e ast.Expr) (bool, bool)
+	eval = func(e ast.Expr) (bool, bool) {
+		switch x := ast.Unparen(e).(type) {
+		case *ast.UnaryExpr:
+			if x.Op == token.NOT {
+				v, ok := eval(x.X)
+				return !v, ok
+			}
+		case *ast.BinaryExpr:
+			switch x.Op {
+			case token.LAND:
+				a, oka := eval(x.X)
+				b, okb := eval(x.Y)
+				if oka && !a || okb && !b {
+					return false, true
+				}
+				return a && b, oka && okb
+			case token.LOR:
+				a, oka := eval(x.X)
+				b, okb := eval(x.Y)
+				if oka && a || okb && b {
+					return true, true
+				}
+				return a || b, oka && okb
+			}
+			l, r, op := x.X, x.Y, x.Op
+			if isLen(r) {
+				l, r = r, l
+				switch op {
+				case token.LSS:
+					op = token.GTR
+				case token.LEQ:
+					op = token.GEQ
+				case token.GTR:
+					op = token.LSS
+				case token.GEQ:
+					op = token.LEQ
+				}
+			}
+			if !isLen(l) {
+				return false, false
+			}
+			v, ok := constInt(info, r)
+			if !ok {
+				return false, false
+			}
+			switch op {
+			case token.EQL:
+				return k == v, true
+			case token.NEQ:
+				return k != v, true
+			case token.LSS:
+				return k < v, true
+			case token.LEQ:
+				return k <= v, true
+			case token.GTR:
+				return k > v, true
+			case token.GEQ:
+				return k >= v, true
+			}
+		}
+		return false, false
+	}
+	var exec func(list []ast.Stmt) bool // false: control left the list
+	exec = func(list []ast.Stmt) bool {
+		for _, st := range list {
+			switch x := st.(type) {
+			case *ast.IfStmt:
+				cur := x
+				for cur != nil {
+					v, ok := eval(cur.Cond)
+					if !ok {
+						// a condition on something else than the length: either branch may run. If a classified statement
+						// depends on it, the outcome for this length is not decided.
+						before := len(out)
+						exec(cur.Body.List)
+						if blk, ok := cur.Else.(*ast.BlockStmt); ok {
+							exec(blk.List)
+						}
+						if len(out) != before {
+							decided = false
+						}
+						break
+					}
+					if v {
+						if !exec(cur.Body.List) {
+							return false
+						}
+						break
+					}
+					switch e := cur.Else.(type) {
+					case *ast.IfStmt:
+						cur = e
+						continue
+					case *ast.BlockStmt:
+						if !exec(e.List) {
+							return false
+						}
+					}
+					break
+				}
+			case *ast.SwitchStmt:
+				var chosen, def *ast.CaseClause
+				for _, cc := range x.Body.List {
+					cl := cc.(*ast.CaseClause)
+					if cl.List == nil {
+						def = cl
+						continue
+					}
+					for _, e := range cl.List {
+						if x.Tag != nil && isLen(x.Tag) {
+							if v, ok := constInt(info, e); ok && v == k && chosen == nil {
+								chosen = cl
+							}
+						} else if x.Tag == nil {
+							if v, ok := eval(e); ok && v && chosen == nil {
+								chosen = cl
+							} else if !ok {
+								decided = false
+							}
+						} else {
+							decided = false
+						}
+					}
+				}
+				if chosen == nil {
+					chosen = def
+				}
+				if chosen != nil {
+					if !exec(chosen.Body) {
+						return false
+					}
+				}
+			case *ast.BranchStmt:
+				return false
+			case *ast.ReturnStmt:
+				return false
+			case *ast.BlockStmt:
+				if !exec(x.List) {
+					return false
+				}
+			default:
+				if l := classify(st); l != "" {
+					out[l] = true
+				}
+			}
+		}
+		return true
+	}
+	exec(stmts)
+	return out, decided
 }
